@@ -46,6 +46,17 @@ theorem children_host_bits_irrelevant {m : PMap w V} (h : m.TreeWF) {q q' : Pfx 
   intro e _
   rw [Bool.eq_iff_iff, contains_iff, contains_iff, hq]
 
+/-- … and as selector of `remove_children` -/
+theorem removeChildren_host_bits_irrelevant {m : PMap w V} (h : m.Inv) {q q' : Pfx w} (hq : q.net = q'.net) :
+    (m.removeChildren q).entries = (m.removeChildren q').entries := by
+  rw [C10.removeChildren_eq_spec h, C10.removeChildren_eq_spec h]
+  unfold Spec.removeChildren
+  apply List.filter_congr
+  intro e _
+  simp only [Bool.not_eq_eq_eq_not, Bool.not_not]
+  unfold Spec.covers Spec.key
+  rw [hq]
+
 /-- … for longest-prefix match and cover … -/
 theorem lpm_host_bits_irrelevant {m : PMap w V} (h : m.TreeWF) {q q' : Pfx w} (hq : q.net = q'.net) :
     m.getLpm q = m.getLpm q' := by
